@@ -101,4 +101,5 @@ run C14 && mut C14 x/fixationstore/types/fixationstore.go '		latestEntry.IsLates
 run C10 && mut C10 x/dualstaking/keeper/delegator_reward.go '		k.RemoveDelegatorReward(ctx, reward.Provider, delegator)
 ' ''
 run C10 && mut C10 x/dualstaking/keeper/delegator_reward.go '	fullProviderReward := providerReward.Add(leftoverRewards...)' '	fullProviderReward := providerReward.Add(leftoverRewards...).Add(leftoverRewards...)'
+run C14 && mut C14 x/fixationstore/types/fixationstore.go '	if found && block > ctxBlock && entry.IsDeleted(ctx) {' '	if false && block > ctxBlock && entry.IsDeleted(ctx) {'
 exit 0
